@@ -368,6 +368,7 @@ func (r *runner) actor(c *cache.Cache, name string, ops []Op) func() {
 }
 
 var theCache *cache.Cache
+var handleSeq int64
 
 // resetDir empties the (reused) cache directory: the cache keeps no in-process
 // state, so removing the files is the same as a fresh directory.
@@ -426,9 +427,12 @@ func setup(dir, start string) *cache.Cache {
 }
 
 func freshLookups(dir string) (map[string]string, []string) {
+	return lookupsThrough(dir, theCache)
+}
+
+func lookupsThrough(dir string, c *cache.Cache) (map[string]string, []string) {
 	vos.SetInterceptor(nil)
 	r := &runner{dir: dir}
-	c := theCache
 	out := map[string]string{}
 	var l1 []string
 	for _, id := range idNames {
@@ -459,22 +463,49 @@ func runOne(family, mode string, cfg Config, strat vsched.Strategy, inj *Inject)
 	c := setup(dir, cfg.Start)
 	base, _ := freshLookups(dir)
 	r := &runner{dir: dir, nops: map[string]int{}, inject: inj}
-	vos.SetInterceptor(r)
 	names := make([]string, 0, len(cfg.Prog))
 	for a := range cfg.Prog {
 		names = append(names, a)
 	}
 	sort.Strings(names)
+	// every other run each actor has a Cache value of its own on the directory (as the processes of a build have);
+	// in the others they share one (as the goroutines of one process do)
+	handles := map[string]*cache.Cache{}
+	own := atomic.AddInt64(&handleSeq, 1)%2 == 1
+	for _, a := range names {
+		handles[a] = c
+		if own {
+			h, err := cache.Open(dir)
+			if err != nil {
+				vutil.Fatalf("open cache: %v", err)
+			}
+			handles[a] = h
+		}
+	}
+	vos.SetInterceptor(r)
 	out := vsched.Run(strat, 20000, func() {
 		s := vsched.Cur()
 		for _, a := range names {
 			if len(cfg.Prog[a]) > 0 {
-				s.Go(a, r.actor(c, a, cfg.Prog[a]))
+				s.Go(a, r.actor(handles[a], a, cfg.Prog[a]))
 			}
 		}
 	})
 	vos.SetInterceptor(nil)
 	fresh, l1 := freshLookups(dir)
+	if own {
+		// once everybody has finished, what is stored is readable through every Cache value, also one that looked
+		// before it was stored: the answers of the actors' own values stand in for the fresh ones where they differ
+		for _, a := range names {
+			fh, l1h := lookupsThrough(dir, handles[a])
+			l1 = append(l1, l1h...)
+			for k, v := range fh {
+				if v != fresh[k] {
+					fresh[k] = v
+				}
+			}
+		}
+	}
 	rec := &RunRec{Family: family, Mode: mode, Start: cfg.Start, Prog: cfg.Prog, Inject: Inject{Kind: "none"}, Events: r.events, End: out.Status,
 		Fresh: fresh, Base: base, Count: 1, L1: append(append([]string{}, r.l1...), l1...)}
 	if inj != nil {
@@ -586,6 +617,13 @@ func main() {
 				configs = append(configs, c)
 			}
 		})
+	}
+	if *mode == "conc-dfs" || *mode == "conc-random" {
+		// lookups of two different stored ids at the same time, nobody writing: each gets its own entry
+		configs = append(configs, Config{Start: "both", Prog: Prog{
+			"w1": {{Op: "getbytes", ID: "i1"}, {Op: "getfile", ID: "i1"}},
+			"w2": {{Op: "getfile", ID: "i2"}, {Op: "getbytes", ID: "i2"}},
+			"r1": {{Op: "getbytes", ID: "i2"}, {Op: "getbytes", ID: "i1"}}}})
 	}
 	switch *mode {
 	case "conc-replay":
